@@ -155,3 +155,43 @@ PROPS["C11"] = dict(
                 "position is checked by the oracle runs (InputOffset and leftover), not yet by a theorem."),
     level_note="Trusted: as C09.",
 )
+
+PROPS["C03"] = dict(
+    rule=("inputs: libbz2 and bzip2.Writer output at levels 1-9 (empty, runs of 1..300 equal bytes, 1..256-symbol alphabets, "
+          "text, random); bit-level synthesised streams with checksums computed by the generator (2-6 trees, arbitrary "
+          "selectors incl. more than needed, code lengths 1-20 incl. over/under-subscribed trees, RUNA/RUNB runs, RLE1 counts "
+          "0..255 incl. zero count followed by the same byte, sparse symbol maps, origin-pointer edges, empty blocks, 14 "
+          "kinds of injected error); concatenations; mutations; every truncation of short synthesised streams; 30 targeted "
+          "block-limit / run-limit / RLE1-edge streams (100000-byte blocks). Non-trivial = accepted, or output delivered, "
+          "or longer than a header; distinct by content hash."),
+    explanation=("Each input runs through bzip2.Reader, libbzip2 (restarted per stream, via cgo) and the extracted decoder "
+                 "model. Oracles: acceptance and output equal to libbzip2 (inputs refused as Deprecated are the permitted "
+                 "divergence), delivered bytes prefix-comparable on failure, InputOffset = total input, class in "
+                 "{UnexpectedEOF, Corrupted}. Model comparison: class and every delivered byte, also on failures. The model "
+                 "(written by a sub-agent from libbzip2's decompress.c / huffman.c) was separately validated against libbz2 "
+                 "on 22,000 inputs incl. 2,600 degenerate-tree streams and stage by stage against the Go helpers."),
+    assumptions=["libbzip2 1.0.8 is the reference", "bit-level generator computes correct checksums (cross-checked by libbzip2 accepting its valid outputs)"],
+    level_text=("The decoder is an executable Gallina port of libbzip2 (incl. limit/base/perm decoding of arbitrary length "
+                "vectors); bzip2.Reader is tied to it byte for byte on every run and both to libbzip2. Proved: the generic "
+                "Read-wrapper theorems instantiated for this program (schedule independence, error = decoder outcome) and "
+                "concrete multi-stream / cut witnesses. The stage-equivalence theorems of DESIGN.md (RLE1, MTF/RLE2, BWT "
+                "inversion, degenerate trees) are not yet proved: that part is differential testing against libbzip2."),
+    level_note="Trusted: Coq kernel, extraction, driver, harness, libbzip2 as reference. Model = code sampled.",
+)
+PROPS["C04"] = dict(
+    rule=("inputs x levels 1-9: empty, embedded runs of 1..300 equal bytes, small and full alphabets, text/random up to 3 KB, "
+          "Fibonacci frequency profiles of 22-33 symbols (optimal code deeper than 20 bits), runs of 1..300 equal bytes "
+          "placed at offsets -6..+5 around the level*100000 block limit (level 1; thorough: 1,2,3,9), a 250 KB multi-block "
+          "input; each with 2 random Write partitions incl. zero-length writes; refused levels -100,-1,10,11,100."),
+    explanation=("Oracles on bzip2.Writer: output accepted and decoded to the input by libbzip2 (one stream, all bytes "
+                 "consumed), Go compress/bzip2 and bzip2.Reader; identical bytes for every partition; offsets exact; bad "
+                 "levels refused. The extracted encoder model must produce the same bytes (byte for byte) for the small, "
+                 "Fibonacci and selected block-limit inputs."),
+    assumptions=["libbzip2 and compress/bzip2 are the reference decoders"],
+    level_text=("bzip2.Writer is reproduced byte for byte by the Gallina encoder model (RLE1 block rules, BWT as sorted "
+                "rotations, MTF/RLE2, length-limited Huffman incl. the uint32 tree rotation, selectors, delta-coded lengths). "
+                "Proved so far: round trips through encoder and decoder models on concrete inputs (text, empty, long runs). "
+                "The universal round-trip theorem needs the stage inverses (RLE1, MTF/RLE2, Huffman, BWT inversion); until "
+                "they are proved the universal claim rests on the correspondence plus three independent decoders."),
+    level_note="Trusted: as C03; SA-IS (bzip2/internal/sais) is not modelled: the model sorts rotations, the BWT stage is compared with the code's output.",
+)
